@@ -176,7 +176,7 @@ func cmdCheck(args []string) int {
 	lem := P.lemmaObligationsFor(*prop, usedLemmaSet)
 	obls = append(obls, lem...)
 	workers := 6
-	if all && len(obls) > 3000 {
+	if all && len(obls) > 1500 {
 		// cross-solver agreement (every solver run to the end on every obligation) only for the smaller
 		// properties; the large ones use first-proof-wins with the thorough budget
 		all = false
